@@ -172,6 +172,9 @@ func (s *state) specAction(r *networking.HTTPRoute) string {
 			scheme := rd.Scheme
 			if scheme == "" {
 				scheme = "http"
+				if s.isTLS {
+					scheme = "https"
+				}
 			}
 			if (port == 80 && scheme == "http") || (port == 443 && scheme == "https") {
 				port = 0
